@@ -51,8 +51,8 @@ def sealBlock (p : Proc) (i : Inst) (t : Topic) (b : Blk) (used : Nat) : Proc ×
   (p, appendBlockToChain i t { b with used := used })
 
 /-- `Writer::write` -/
-def writerWrite (c : Cfg) (p : Proc) (i : Inst) (t : Topic) (w : Writer) (pay : Pay) :
-    Proc × Inst × Option ErrKind :=
+def writerWrite (c : Cfg) (p : Proc) (i : Inst) (t : Topic) (w : Writer) (pay : Pay)
+    (flt : Option Fault := none) : Proc × Inst × Option ErrKind :=
   if w.batching then (p, i, some .wouldBlock)
   else
     let need := c.metaSz + pay.len
@@ -70,7 +70,11 @@ def writerWrite (c : Cfg) (p : Proc) (i : Inst) (t : Topic) (w : Writer) (pay : 
       let (p, i) := sealBlock p i t w.blk w.off
       (p, i, some .invalidInput)
     | some (p, i, w) =>
-      if t.long then
+      if flt = some ⟨0, 0⟩ then
+        -- injected failure of the entry write: `block.write(..)?` returns before the offset moves;
+        -- a rotation above has already happened
+        (p, { i with writers := i.writers.insert t w }, some .other)
+      else if t.long then
         -- `Block::write`: "metadata too large"; a rotation above has already happened
         (p, { i with writers := i.writers.insert t w }, some .invalidData)
       else
@@ -79,10 +83,11 @@ def writerWrite (c : Cfg) (p : Proc) (i : Inst) (t : Topic) (w : Writer) (pay : 
         (p, { i with writers := i.writers.insert t w }, none)
 
 /-- `Walrus::append_for_topic` -/
-def appendForTopic (c : Cfg) (p : Proc) (i : Inst) (t : Topic) (pay : Pay) : Proc × Inst × Out :=
+def appendForTopic (c : Cfg) (p : Proc) (i : Inst) (t : Topic) (pay : Pay) (flt : Option Fault := none) :
+    Proc × Inst × Out :=
   let i := markClean i t false
   let (p, i, w) := getOrCreateWriter c p i t
-  match writerWrite c p i t w pay with
+  match writerWrite c p i t w pay flt with
   | (p, i, some e) => (p, i, .err e)
   | (p, i, none) => (p, incCount i t 1, .ok)
 
@@ -105,9 +110,16 @@ def planBatch (c : Cfg) (t : Topic) :
         -- the fresh block always fits the entry (limit ≥ need), so it is planned next
         planBatch c t rest p i nb need ((nb, 0, pay) :: acc)
 
-/-- `Writer::batch_write` (every I/O succeeds). -/
-def writerBatchWrite (c : Cfg) (p : Proc) (i : Inst) (t : Topic) (w : Writer) (batch : List Pay) :
-    Proc × Inst × Option ErrKind :=
+/-- does the injected fault hit a batch whose plan has `planLen` entries? -/
+def batchFails (flt : Option Fault) (planLen : Nat) : Bool :=
+  match flt with
+  | some ⟨0, n⟩ => decide (n < planLen)
+  | some ⟨7, 0⟩ => true
+  | _ => false
+
+/-- `Writer::batch_write` -/
+def writerBatchWrite (c : Cfg) (p : Proc) (i : Inst) (t : Topic) (w : Writer) (batch : List Pay)
+    (flt : Option Fault := none) : Proc × Inst × Option ErrKind :=
   if batch.length > c.cap then (p, i, some .invalidInput)
   else if (batch.map fun x => c.metaSz + x.len).sum > c.maxBatchBytes then (p, i, some .invalidInput)
   else if batch.isEmpty then (p, i, none)
@@ -120,15 +132,26 @@ def writerBatchWrite (c : Cfg) (p : Proc) (i : Inst) (t : Topic) (w : Writer) (b
       -- planning so far stay, the writer's offset is the original one
       (p, { i with writers := i.writers.insert t { w with blk := nb } }, some .invalidInput)
     | (p, i, nb, some (off, plan)) =>
-      let files := plan.foldl (fun fs (b, o, pay) => writeCell c fs b o t pay) p.files
-      let w := { w with blk := nb, off := off }
-      ({ p with files := files }, { i with writers := i.writers.insert t w }, none)
+      if batchFails flt plan.length then
+        -- a write (or the submission) failed: the headers of the planned entries are zeroed, the
+        -- offset goes back to the original one, every block allocated while planning is
+        -- "unlocked" in the trackers - but the seals of the planning phase stay and the writer
+        -- keeps the block it switched to (`*block = new_block` is not undone)
+        let files := plan.foldl (fun fs (x : Blk × Nat × Pay) => zeroHeader c fs x.1 x.2.1) p.files
+        let newIds := ((plan.map fun (x : Blk × Nat × Pay) => x.1.id).eraseDups).filter (· ≠ w.blk.id)
+        let trk := newIds.foldl (fun tk id => tk.setBlockUnlocked id) p.trk
+        ({ p with files := files, trk := trk }, { i with writers := i.writers.insert t { w with blk := nb } }, some .other)
+      else
+        let files := plan.foldl (fun fs (b, o, pay) => writeCell c fs b o t pay) p.files
+        let w := { w with blk := nb, off := off }
+        ({ p with files := files }, { i with writers := i.writers.insert t w }, none)
 
 /-- `Walrus::batch_append_for_topic` -/
-def batchAppendForTopic (c : Cfg) (p : Proc) (i : Inst) (t : Topic) (batch : List Pay) : Proc × Inst × Out :=
+def batchAppendForTopic (c : Cfg) (p : Proc) (i : Inst) (t : Topic) (batch : List Pay)
+    (flt : Option Fault := none) : Proc × Inst × Out :=
   let i := markClean i t false
   let (p, i, w) := getOrCreateWriter c p i t
-  match writerBatchWrite c p i t w batch with
+  match writerBatchWrite c p i t w batch flt with
   | (p, i, some e) => (p, i, .err e)
   | (p, i, none) => (p, incCount i t batch.length, .ok)
 
